@@ -11,7 +11,7 @@ from litedram.common import LiteDRAMNativePort
 from litedram.frontend.adapter import LiteDRAMNativePortCDC
 
 from ..engine import Sim
-from ..agents import NativeMaster, NativeMemSlave, RefMem, Violations, word_of, StreamMonitor
+from ..agents import StallCounter, NativeMaster, NativeMemSlave, RefMem, Violations, word_of, StreamMonitor
 from .c07 import gen_pattern, gen_extra
 
 ID = "C08"
@@ -98,6 +98,7 @@ def run(scn):
                        rready=scn["master"].get("rready"), max_reads=d.get("rdata_depth", 16))
     sim.add_agent("usr", mas)
     sim.add_agent("sys", mem)
+    sc_r = StallCounter(sim, pu.rdata.valid, pu.rdata.ready, "usr")
     ncmd = len(ops)
     ratio = max(1.0, ck["usr"]["period"] / ck["sys"]["period"])
     stall = sum(b for a, b in (m.get("cmd_ready") or [])) + int(ratio * sum(a + b for a, b in (scn["master"].get("rready") or []))) + 1
@@ -151,6 +152,7 @@ def run(scn):
                 viol.add("final_image", "memory word 0x%x holds 0x%x, reference says 0x%x" % (A, mem.mem[A], ref.read(A, nb)))
                 break
     stats["runs_exceeding_wdata_depth"] = 1 if wout[1] > d.get("wdata_depth", 16) else 0
+    stats["rready_stall_cycles"] = sc_r.n
     if meta:
         stats["meta_near"] = meta["near"]
         stats["meta_altered"] = meta["altered"]
